@@ -101,7 +101,7 @@ func (s *Set) Contains(x uint64) bool {
 
 func normalize(in []Iv) []Iv {
 	// in is sorted by Lo; merge overlapping/adjacent
-	out := in[:0:0]
+	out := make([]Iv, 0, len(in))
 	for _, iv := range in {
 		n := len(out)
 		if n > 0 {
@@ -188,19 +188,70 @@ func AndNot(a, b *Set) *Set {
 
 func Xor(a, b *Set) *Set { return Or(AndNot(a, b), AndNot(b, a)) }
 
+// splice replaces intervals [i,j) by repl.
+func (s *Set) splice(i, j int, repl ...Iv) {
+	d := len(repl) - (j - i)
+	if d == 0 {
+		copy(s.iv[i:j], repl)
+		return
+	}
+	n := len(s.iv)
+	if d > 0 {
+		s.iv = append(s.iv, make([]Iv, d)...)
+	}
+	copy(s.iv[j+d:], s.iv[j:n])
+	copy(s.iv[i:], repl)
+	s.iv = s.iv[:n+d]
+}
+
 // AddRange adds the closed interval [lo,hi]; no-op if lo>hi.
 func (s *Set) AddRange(lo, hi uint64) {
 	if lo > hi {
 		return
 	}
-	s.iv = Or(s, &Set{iv: []Iv{{lo, hi}}}).iv
+	// first interval that overlaps or is adjacent on the left: Hi >= lo-1
+	l := lo
+	if l > 0 {
+		l--
+	}
+	i := s.find(l)
+	// first interval strictly beyond hi+1: Lo > hi+1
+	j := i
+	for j < len(s.iv) && (hi == Max64 || s.iv[j].Lo <= hi+1) {
+		j++
+	}
+	nlo, nhi := lo, hi
+	if i < j {
+		if s.iv[i].Lo < nlo {
+			nlo = s.iv[i].Lo
+		}
+		if s.iv[j-1].Hi > nhi {
+			nhi = s.iv[j-1].Hi
+		}
+	}
+	s.splice(i, j, Iv{nlo, nhi})
 }
 
 func (s *Set) RemoveRange(lo, hi uint64) {
 	if lo > hi {
 		return
 	}
-	s.iv = AndNot(s, &Set{iv: []Iv{{lo, hi}}}).iv
+	i := s.find(lo)
+	j := i
+	for j < len(s.iv) && s.iv[j].Lo <= hi {
+		j++
+	}
+	if i == j {
+		return
+	}
+	var repl []Iv
+	if s.iv[i].Lo < lo {
+		repl = append(repl, Iv{s.iv[i].Lo, lo - 1})
+	}
+	if s.iv[j-1].Hi > hi {
+		repl = append(repl, Iv{hi + 1, s.iv[j-1].Hi})
+	}
+	s.splice(i, j, repl...)
 }
 
 func (s *Set) FlipRange(lo, hi uint64) {
@@ -226,6 +277,17 @@ func (s *Set) Remove(x uint64) bool {
 	}
 	s.RemoveRange(x, x)
 	return true
+}
+
+// AddValues adds many values at once.
+func (s *Set) AddValues32(vs []uint32) {
+	if len(vs) < 8 {
+		for _, v := range vs {
+			s.Add(uint64(v))
+		}
+		return
+	}
+	s.iv = Or(s, FromValues32(vs)).iv
 }
 
 func (s *Set) Clear() { s.iv = nil }
